@@ -149,7 +149,7 @@ template<typename T, size_t N> void c_redf(unsigned seed) { g_seed = seed;
     emit_exact(S<T>::id("trace", {(long)N}), tr, rr, 1);
 }
 // ---------------------------------------------------------------------------------------------- einsum
-enum { I_=0, J_, K_, L_, M_ };
+enum { I_=0, J_, K_, L_, M_, N_ };
 template<typename T, size_t A0, size_t A1, size_t A2> void c_es(unsigned seed) { g_seed = seed;
     { Tensor<T,A0,A1> A; Tensor<T,A1,A2> B; fill(A, seed); fill(B, seed+1);
       auto C = einsum<Index<I_,J_>,Index<J_,K_>>(A,B); T ref[A0*A2];
@@ -172,6 +172,17 @@ template<typename T, size_t A0, size_t A1, size_t A2> void c_es(unsigned seed) {
       auto C = einsum<Index<I_,J_>,Index<J_,K_>,Index<K_,L_>>(A,B,C3); T ref[A0*A0];
       for (size_t i=0;i<A0;++i) for (size_t l=0;l<A0;++l) { T s=0; for (size_t j=0;j<A1;++j) for (size_t k=0;k<A2;++k) s += A(i,j)*B(j,k)*C3(k,l); ref[i*A0+l]=s; }
       emit_exact(S<T>::id("es3-ij,jk,kl", {(long)A0,(long)A1,(long)A2}), C.data(), ref, A0*A0); }
+}
+// five-operand chain with non-uniform extents (the cost model then has distinct costs per variant)
+template<typename T, size_t A0, size_t A1, size_t A2> void c_es5(unsigned seed) { g_seed = seed;
+    Tensor<T,A0,A1> A; Tensor<T,A1,A2> B; Tensor<T,A2,A0> C; Tensor<T,A0,A2> D; Tensor<T,A2,A1> E;
+    fill(A, seed, 5); fill(B, seed+1, 5); fill(C, seed+2, 5); fill(D, seed+3, 5); fill(E, seed+4, 5);
+    auto R = einsum<Index<I_,J_>,Index<J_,K_>,Index<K_,L_>,Index<L_,M_>,Index<M_,N_>>(A,B,C,D,E);   // (i,n): A0 x A1
+    T ref[A0*A1];
+    for (size_t i=0;i<A0;++i) for (size_t n=0;n<A1;++n) { T s=0;
+        for (size_t j=0;j<A1;++j) for (size_t k=0;k<A2;++k) for (size_t l=0;l<A0;++l) for (size_t m=0;m<A2;++m) s += A(i,j)*B(j,k)*C(k,l)*D(l,m)*E(m,n);
+        ref[i*A1+n]=s; }
+    emit_exact(S<T>::id("es5-ij,jk,kl,lm,mn", {(long)A0,(long)A1,(long)A2}), R.data(), ref, A0*A1);
 }
 // ---------------------------------------------------------------------------------------------- permute / transpose
 template<typename T, size_t A0, size_t A1, size_t A2> void c_perm(unsigned seed) { g_seed = seed;
